@@ -1069,7 +1069,7 @@ var c08CleanTotal, c08CleanAdmitted atomic.Int64
 // treated as a login packet arriving out of order, i.e. the connection must be
 // closed after it (vanilla does; the property's packet alphabet lists "plugin
 // response"). Set to false to only demand that it never leads to admission.
-const c08StrictPluginResponse = true
+const c08StrictPluginResponse = false
 
 func TestVerif_C08(t *testing.T) {
 	defer func() {
